@@ -28,10 +28,10 @@ import (
 
 // Options of one emulator instance.
 type Options struct {
-	Audio   bool // attach simulated speakers (sample channels)
-	Video   bool // attach simulated display
-	Serial  bool // attach serial writer
-	ChanCap int  // capacity of the sample channels (0: production value 200)
+	Audio    bool // attach simulated speakers (sample channels)
+	Video    bool // attach simulated display
+	Serial   bool // attach serial writer
+	ChanCap  int  // capacity of the sample channels (0: production value 200)
 	DebugLCD bool
 }
 
@@ -62,7 +62,7 @@ type Machine struct {
 	OnFrame func(frame *image.RGBA) bool
 	// GuardUndefined stops the run before an undefined opcode would execute (the
 	// emulator deliberately calls os.Exit there).
-	GuardUndefined bool
+	GuardUndefined     bool
 	StoppedOnUndefined bool
 
 	DisplayCleanups int
@@ -71,16 +71,17 @@ type Machine struct {
 	SerialOut []byte
 	SerialAt  []uint64
 
-	ctx    *SimContext
-	stopAt uint64
+	ctx     *SimContext
+	stopAt  uint64
 	useStop bool
+	co      *coState
 }
 
 // SimContext is the context handed to the real frame loop. It carries the per-cycle hook.
 type SimContext struct {
-	m        *Machine
-	done     chan struct{}
-	closed   bool
+	m      *Machine
+	done   chan struct{}
+	closed bool
 	// CancelAtDoneCall: Done() becomes ready at its k-th evaluation (1-based), 0 = never.
 	CancelAtDoneCall int
 }
@@ -116,15 +117,31 @@ func (c *SimContext) EndCycle(gb *gameboy.Gameboy, mtick int) {
 	if m.OnCycle != nil {
 		m.OnCycle()
 	}
-	if m.GuardUndefined && m.CPU.VerifAtBoundary() && !m.CPU.VerifHalted() && !m.CPU.VerifStopped() {
-		if IsUndefined(m.Map.Read(m.CPU.VerifGetRegs().PC)) && !m.willDispatch() {
-			m.StoppedOnUndefined = true
-			panic(stopSentinel{})
-		}
+	if m.GuardUndefined && m.nextIsUndefined() {
+		m.StoppedOnUndefined = true
+		panic(stopSentinel{})
 	}
 	if m.useStop && m.N >= m.stopAt {
 		panic(stopSentinel{})
 	}
+	if co := m.co; co != nil && m.N >= co.stopAt {
+		co.parked <- false
+		k, ok := <-co.resume
+		if !ok {
+			// abandoned: end the goroutine
+			panic(stopSentinel{})
+		}
+		co.stopAt = m.N + k
+	}
+}
+
+// nextIsUndefined reports whether the CPU is at an instruction boundary and the next opcode
+// it would execute is undefined (the emulator deliberately exits the process there).
+func (m *Machine) nextIsUndefined() bool {
+	if !m.CPU.VerifAtBoundary() || m.CPU.VerifHalted() {
+		return false
+	}
+	return IsUndefined(m.Map.Read(m.CPU.VerifGetRegs().PC)) && !m.willDispatch()
 }
 
 func (m *Machine) willDispatch() bool {
@@ -315,6 +332,10 @@ func (m *Machine) RunCycles(n uint64) {
 	if n == 0 {
 		return
 	}
+	if m.GuardUndefined && m.nextIsUndefined() {
+		m.StoppedOnUndefined = true
+		return
+	}
 	m.stopAt = m.N + n
 	m.useStop = true
 	defer func() {
@@ -342,6 +363,10 @@ func (m *Machine) RunFrames(k int) (stopped bool) {
 			stopped = true
 		}
 	}()
+	if m.GuardUndefined && m.nextIsUndefined() {
+		m.StoppedOnUndefined = true
+		return true
+	}
 	for i := 0; i < k; i++ {
 		if m.GB.VerifRunFrame(m.ctx) {
 			return true
@@ -359,6 +384,10 @@ func (m *Machine) RunReal() {
 			}
 		}
 	}()
+	if m.GuardUndefined && m.nextIsUndefined() {
+		m.StoppedOnUndefined = true
+		return
+	}
 	m.GB.Run(m.ctx)
 }
 
@@ -409,4 +438,66 @@ func (m *Machine) Park() {
 	r.SP = 0xfffa
 	m.CPU.VerifSetRegs(r)
 	m.IRQ.Disable()
+}
+
+// ---- coroutine mode -----------------------------------------------------------------------
+// An instance can run its real frame loop in its own goroutine and be advanced in slices by a
+// scheduler that owns the only token: the goroutine parks inside the per-cycle hook and runs
+// only between Resume and the end of its slice, so interleavings of several instances are
+// decided entirely by the caller and replay exactly. Unlike RunCycles, frames are never cut.
+
+type coState struct {
+	abandoned bool
+	resume    chan uint64
+	parked    chan bool // true: finished
+	stopAt    uint64
+	done      bool
+	Panic     *PanicInfo
+}
+
+// StartCo prepares the instance to run `frames` complete frames in coroutine mode.
+func (m *Machine) StartCo(frames int) {
+	co := &coState{resume: make(chan uint64), parked: make(chan bool)}
+	m.co = co
+	go func() {
+		k, ok := <-co.resume
+		if !ok {
+			return
+		}
+		co.stopAt = m.N + k
+		co.Panic = Protect(func() { m.RunFrames(frames) })
+		if co.abandoned {
+			return
+		}
+		co.done = true
+		co.parked <- true
+	}()
+}
+
+// Resume lets the instance run k more machine cycles (or to its end). It returns true when
+// the instance has finished its frames (or stopped on the undefined-opcode guard, or panicked).
+func (m *Machine) Resume(k uint64) bool {
+	co := m.co
+	if co == nil || co.done {
+		return true
+	}
+	co.resume <- k
+	return <-co.parked
+}
+
+// CoPanic returns the panic that ended the coroutine, if any.
+func (m *Machine) CoPanic() *PanicInfo {
+	if m.co == nil {
+		return nil
+	}
+	return m.co.Panic
+}
+
+// Abandon releases a parked coroutine goroutine (it never runs again).
+func (m *Machine) Abandon() {
+	if m.co != nil && !m.co.done {
+		m.co.done = true
+		m.co.abandoned = true
+		close(m.co.resume)
+	}
 }
